@@ -398,22 +398,190 @@ pub fn trial(prop: &str, i: u64, rng: &mut Rng, out: &mut Outcome, dir: &std::pa
     s.w.cleanup();
 }
 
+/// Second family: an EX-member is invited again into the group it was removed from (or left). Its
+/// storage still holds the Inactive record of the earlier membership - with a completed
+/// self-update, the old epoch, old relays, an old last-message pointer. After accepting the new
+/// invitation it must be exactly where a first-time joiner would be: Active, in the inviter's state,
+/// with the obligation to rotate its key pending again, listed by `groups_needing_self_update`.
+pub fn reinvite_trial(prop: &str, i: u64, rng: &mut Rng, out: &mut Outcome, dir: &std::path::Path) {
+    let backend = if i % 2 == 0 { BackendKind::Sqlite } else { BackendKind::Memory };
+    let mut w = World::empty(dir.to_path_buf(), format!("c16r-{i}"));
+    let cfg = mdk_core::MdkConfig::default();
+    let a = w.add_client(BackendKind::Memory, cfg.clone(), rng);
+    let r = w.add_client(backend, cfg.clone(), rng);
+    let x = w.add_client(BackendKind::Memory, cfg.clone(), rng);
+    // the ex-member-to-be is sometimes the creator of the group (its record never was `Required`)
+    let r_creates = rng.chance(25);
+    let g = if r_creates { w.create_group(&[r, a, x], &[r, a], None, "reinvite") } else { w.create_group(&[a, r, x], &[a], None, "reinvite") };
+    let gid = w.gid(g);
+    out.evaluations += 1;
+    let mut labels = vec![format!("backend={backend:?}"), format!("creator={r_creates}")];
+    let fail = |out: &mut Outcome, sig: String, detail: String, w: &World| {
+        out.violation(sig, detail, json!({"kind": "c16-reinvite", "scenario": i, "trace": trace_tail(w, 30)}));
+    };
+    let everyone = [a, r, x];
+    let broadcast = |w: &mut World, idx: usize| {
+        let author = w.log[idx].author;
+        for c in everyone {
+            if c != author {
+                w.deliver(c, idx, OwnMode::Echo);
+            }
+        }
+    };
+    // earlier life: messages, and (usually) r completes a self-update
+    for _ in 0..rng.range(1, 3) {
+        w.t += 2;
+        let ts = w.base_ts;
+        if let Some(m) = w.act_message(*rng.pick(&[a, r, x]), g, ts) {
+            broadcast(&mut w, m);
+        }
+    }
+    let rotated = rng.chance(75);
+    if rotated {
+        w.t += 2;
+        let t = w.t;
+        if let Some(c) = w.act_commit(r, g, &CommitKind::SelfUpdate, t, OwnMode::Immediate, 0, rng) {
+            broadcast(&mut w, c);
+        }
+    }
+    labels.push(format!("rotated-before={rotated}"));
+    let su_before = w.clients[r].fp(&gid).su.clone();
+    // r goes: removed by the admin, or leaves (the admin commits the leave)
+    w.t += 2;
+    let leaves = rng.chance(40) && !r_creates;
+    let removal = if leaves {
+        w.act_leave(r, g).and_then(|p| {
+            // the admin commits the leave and merges at once
+            let d = w.deliver(a, p, OwnMode::Immediate);
+            w.deliver(x, p, OwnMode::Echo);
+            d.produced
+        })
+    } else {
+        let rpk = w.clients[r].pk();
+        let at = w.clients[a].state(g, &gid).unwrap();
+        mdk_core::verif::set_created_at(Some(w.t));
+        with_mdk!(w.clients[a].mdk, m => m.remove_members(&gid, &[rpk])).ok().map(|u| {
+            let idx = w.log.len();
+            w.log.push(Pub { ev: u.evolution_event, kind: PubKind::Commit, author: a, g, at, refs: vec![], what: "remove r".into(), rumor: None, mode: OwnMode::Immediate, welcomes: vec![], adversarial: false });
+            w.clients[a].pending_own.insert(g, idx);
+            w.act_merge(a, g);
+            idx
+        })
+    };
+    labels.push(if leaves { "left".into() } else { "removed".into() });
+    let Some(removal) = removal else {
+        out.note("reinvite_cases", format!("{} -> removal not produced", labels.join(",")));
+        w.cleanup();
+        return;
+    };
+    broadcast(&mut w, removal);
+    if w.clients[r].group_state(&gid) != Some(group_types::GroupState::Inactive) {
+        out.note("reinvite_cases", format!("{} -> r did not become Inactive", labels.join(",")));
+        w.cleanup();
+        return;
+    }
+    // the group moves on without r
+    for _ in 0..rng.below(3) {
+        w.t += 2;
+        let t = w.t;
+        let kind = rng.pick(&[CommitKind::SelfUpdate, CommitKind::Rename, CommitKind::Relays]).clone();
+        if let Some(c) = w.act_commit(a, g, &kind, t, OwnMode::Immediate, rng.next() % 1000, rng) {
+            w.deliver(x, c, OwnMode::Echo);
+            w.deliver(r, c, OwnMode::Echo);
+        }
+    }
+    // ... and invites r again
+    w.t += 2;
+    let kp = w.clients[r].key_package_event();
+    mdk_core::verif::set_created_at(Some(w.t));
+    let at = w.clients[a].state(g, &gid).unwrap();
+    let Ok(u) = with_mdk!(w.clients[a].mdk, m => m.add_members(&gid, &[kp])) else {
+        out.note("reinvite_cases", format!("{} -> add_members refused", labels.join(",")));
+        w.cleanup();
+        return;
+    };
+    let idx = w.log.len();
+    let rumor = u.welcome_rumors.clone().unwrap()[0].clone();
+    w.log.push(Pub { ev: u.evolution_event, kind: PubKind::Commit, author: a, g, at, refs: vec![], what: "re-add r".into(), rumor: None, mode: OwnMode::Immediate, welcomes: vec![(r, rumor.clone())], adversarial: false });
+    w.clients[a].pending_own.insert(g, idx);
+    w.act_merge(a, g);
+    w.deliver(x, idx, OwnMode::Echo);
+    let wid = EventId::from_byte_array(rng.bytes::<32>());
+    let wl = match with_mdk!(w.clients[r].mdk, m => m.process_welcome(&wid, &rumor)) {
+        Ok(wl) => wl,
+        Err(e) => {
+            fail(out, format!("{prop}|reinvited-ex-member|welcome-refused|{}", error_variant(&e)), format!("{}: process_welcome: {e}", labels.join(",")), &w);
+            w.cleanup();
+            return;
+        }
+    };
+    out.count("reinvitations_processed");
+    // consent gate: nothing is Active before accept
+    if w.clients[r].group_state(&gid) == Some(group_types::GroupState::Active) {
+        fail(out, format!("{prop}|reinvited-ex-member|active-before-accept"), labels.join(","), &w);
+        w.cleanup();
+        return;
+    }
+    if let Err(e) = with_mdk!(w.clients[r].mdk, m => m.accept_welcome(&wl)) {
+        fail(out, format!("{prop}|reinvited-ex-member|accept-refused|{}", error_variant(&e)), format!("{}: {e}", labels.join(",")), &w);
+        w.cleanup();
+        return;
+    }
+    let jf = w.clients[r].fp(&gid);
+    let inf = w.clients[a].fp(&gid);
+    out.count("join_state_comparisons");
+    out.count("reinvited_ex_members_compared");
+    let mut parts = vec![];
+    if jf.mls != inf.mls { parts.push("MLS"); }
+    if jf.mem != inf.mem { parts.push("MEM"); }
+    if jf.gd != inf.gd { parts.push("GD"); }
+    if jf.rel != inf.rel { parts.push("REL"); }
+    if jf.rec_mirror() != inf.rec_mirror() { parts.push("REC"); }
+    let case = format!("{} su-before={}", labels.join(","), su_before.split('(').next().unwrap_or(""));
+    out.note("reinvite_cases", format!("{case} -> su-after={}", jf.su.split('(').next().unwrap_or("")));
+    if !parts.is_empty() {
+        fail(out, format!("{prop}|reinvited-ex-member|joiner-state-differs-from-inviter|parts={}", parts.join("+")), format!("{case}: REC `{}` vs `{}`; REL `{}` vs `{}`", jf.rec_mirror(), inf.rec_mirror(), jf.rel, inf.rel), &w);
+        w.cleanup();
+        return;
+    }
+    let listed = with_mdk!(w.clients[r].mdk, m => m.groups_needing_self_update(0)).map(|v| v.contains(&gid)).unwrap_or(false);
+    if jf.su != "Required" || !listed || w.clients[r].group_state(&gid) != Some(group_types::GroupState::Active) {
+        fail(out, format!("{prop}|reinvited-ex-member|no-self-update-obligation-or-not-active|backend={backend:?}"), format!("{case}: after accept su={} listed-by-groups_needing_self_update={listed} state={:?}", jf.su, w.clients[r].group_state(&gid)), &w);
+        w.cleanup();
+        return;
+    }
+    // and the group works again for r
+    if let Some(st) = w.clients[r].state(g, &gid) {
+        w.clients[r].reached.insert(st);
+    }
+    let ts = w.base_ts;
+    if let Some(m) = w.act_message(a, g, ts) {
+        let d = w.deliver(r, m, OwnMode::Echo);
+        if d.class != "ApplicationMessage" {
+            fail(out, format!("{prop}|reinvited-ex-member|joined-group-cannot-read|result={}", d.class), case.clone(), &w);
+        }
+    }
+    out.distinct.insert(crate::rng::fnv(case.as_bytes()) ^ i);
+    w.cleanup();
+}
+
 pub fn run(ctx: &Ctx) -> i32 {
     let dir = ctx.scratch_dir("c16");
     let n = ctx.budget(4000, 60_000) as u64;
-    let out = crate::par::run(ctx, n, std::time::Duration::from_secs(ctx.tier.pick(60, 900)), |i, rng, out| trial(&ctx.prop, i, rng, out, &dir));
+    let out = crate::par::run(ctx, n, std::time::Duration::from_secs(ctx.tier.pick(60, 900)), |i, rng, out| if i % 5 == 4 { reinvite_trial(&ctx.prop, i, rng, out, &dir) } else { trial(&ctx.prop, i, rng, out, &dir) });
     let _ = std::fs::remove_dir_all(&dir);
     let floors = vec![
         Floor { what: "adversarial invitations", have: out.get("adversarial_invitations"), need: 800 },
         Floor { what: "idempotence checks", have: out.get("idempotence_checks"), need: 150 },
         Floor { what: "join-state comparisons", have: out.get("join_state_comparisons"), need: 80 },
+        Floor { what: "re-invited ex-members compared with their inviter", have: out.get("reinvited_ex_members_compared"), need: 200 },
         Floor { what: "distinct cases", have: out.sets.get("cases").map(|s| s.len()).unwrap_or(0) as u64, need: 40 },
     ];
     let _: BTreeMap<u8, u8> = BTreeMap::new();
     finish(
         ctx,
         "exploration",
-        "a recipient that already is an active member of one group receives a valid invitation to a second group (processed under the same and under fresh wrapper ids, before / while pending / after accept / after decline, then accepted or declined) interleaved with forged invitations built with OpenMLS by a member of its existing group, by the inviter and by an outsider: for the MLS group id it already holds (same or foreign group data), for a new MLS id claiming its existing nostr id, for the invited group's MLS id, with the rumor id of an earlier stored welcome, with extension version 0. Oracle: re-processing returns the same stored welcome and changes nothing; no group is Active without accept_welcome; after accept the joiner's MLS state / members / group data / relays equal the inviter's and the self-update obligation is Required; no invitation changes the fingerprint of an Active group, and that group still processes its next message and commit; a stored welcome is never replaced by another invitation",
+        "(second family, one trial in five) an ex-member - removed or left, with or without a completed self-update, sometimes the creator of the group, on memory or SQLite - is invited again after the group moved on: nothing is Active before accept; after accept it is in the inviter's state, the obligation is Required again and groups_needing_self_update lists the group, and it reads the inviter's next message. (first family) a recipient that already is an active member of one group receives a valid invitation to a second group (processed under the same and under fresh wrapper ids, before / while pending / after accept / after decline, then accepted or declined) interleaved with forged invitations built with OpenMLS by a member of its existing group, by the inviter and by an outsider: for the MLS group id it already holds (same or foreign group data), for a new MLS id claiming its existing nostr id, for the invited group's MLS id, with the rumor id of an earlier stored welcome, with extension version 0. Oracle: re-processing returns the same stored welcome and changes nothing; no group is Active without accept_welcome; after accept the joiner's MLS state / members / group data / relays equal the inviter's and the self-update obligation is Required; no invitation changes the fingerprint of an Active group, and that group still processes its next message and commit; a stored welcome is never replaced by another invitation",
         out,
         floors,
         vec!["wrapper_event_id of the stored welcome is not compared when the same rumor arrives under a fresh wrapper id".into()],
